@@ -417,7 +417,7 @@ func (f *Frame) enterLoop(li *loopInfo, cur *State, rc *runCtx) {
 			if !ok {
 				continue
 			}
-			if u.eng.LockMode && strings.HasPrefix(k.key, "F:sync.RWMutex.") {
+			if u.eng.LockMode && (strings.HasPrefix(k.key, "F:sync.RWMutex.") || k.key == "F:sync.Mutex.sema") {
 				continue // kept as a whole by havocAll
 			}
 			nh, ok := done[k.key]
